@@ -242,6 +242,8 @@ func runC08(w *World, r *Report) {
 	// is written by the holder: after the native Unlock/RUnlock another goroutine owns the mutex.
 	r.Rule("R-C08-4", "shadow lock state is written by the holder only: in callMutexMethod / callRWMutexMethod no write of the lock-state bookkeeping is reachable after the native Unlock / RUnlock of the same call", 3)
 
+	r.Rule("R-C08-7", "atomic test-and-clear: each native Unlock / RUnlock of a program's mutex in callMutexMethod / callRWMutexMethod is reachable only through the success edge of a CompareAndSwap on the shadow lock state, so two goroutines releasing a mutex that is held once cannot both reach the native release (a fatal runtime error)", 3)
+
 	for _, name := range []string{"callMutexMethod", "callRWMutexMethod"} {
 		fn := w.ssaFunc(bp, name)
 		if fn == nil {
@@ -302,6 +304,27 @@ func runC08(w *World, r *Report) {
 			key := "bytecode." + name + "|no bookkeeping after " + op.kind
 			if n > 1 {
 				key += "#" + sprintInt(n)
+			}
+
+			casCuts := cutEdges(fn, func(f Fact) bool {
+				if f.Kind != "true" {
+					return false
+				}
+
+				cv, ok := f.V.(*ssa.Call)
+
+				return ok && strings.HasSuffix(callID(cv.Common()), ".CompareAndSwap") && isShadowWrite(cv)
+			})
+
+			key7 := "bytecode." + name + "|" + op.kind + " behind CompareAndSwap"
+			if n > 1 {
+				key7 += "#" + sprintInt(n)
+			}
+
+			if len(casCuts) == 0 || instrReachableAfterCut(fn, in, casCuts) {
+				r.Violate("R-C08-7", key7, w.pos(in.Pos()), "the native "+op.kind+" is reached on a path where the recorded lock state was tested and updated in separate steps (or not at all): two goroutines of a program releasing a mutex that is held once can both pass the test, and the second native release ends the process (fatal error: sync: unlock of unlocked mutex)")
+			} else {
+				r.Discharge("R-C08-7", key7, w.pos(in.Pos()), "reachable only after a successful CompareAndSwap of the shadow state")
 			}
 
 			if late := pathAvoiding(in, nil, func(ssa.Instruction) bool { return false }, isShadowWrite); late != nil {
